@@ -30,7 +30,7 @@ theorem assemble_of_not_assembled (m : Mesh) (h : isAssembled (assemble m) = fal
   rw [this]
 
 def writtenOf (l : Lists) (modified : List String) (dflt : Option (String × String))
-    (merged : List (String × String)) (live : List Op) : Except Err String :=
+    (merged : List (String × String)) (live : List Op) : Except Err Text :=
   written { depot := live, deleted := [], lists := l, modified := modified, dflt := dflt, merged := merged }
 
 theorem liveOps_norm (m : Mesh) :
@@ -40,11 +40,11 @@ theorem liveOps_norm (m : Mesh) :
 
 theorem render_congr (a b : Mesh) (h1 : a.lists = b.lists) (h2 : a.modified = b.modified) (h3 : a.dflt = b.dflt)
     (h4 : a.merged = b.merged) (h6 : a.geometry = b.geometry) : render a = render b := by
-  unfold render
+  unfold render geometrySection patchSection
   rw [h1, h2, h3, h4, h6]
 
 /-- `write` once the implicit assembly is done -/
-def writeFrom (x : Mesh) : Mesh × Except Err String :=
+def writeFrom (x : Mesh) : Mesh × Except Err Text :=
   if !isAssembled x then (x, .error .notAssembled)
   else
     if (gradeBlocks x).lists.blocks.all Block.isDefined then (gradeBlocks x, .ok (render (gradeBlocks x)))
